@@ -273,6 +273,9 @@ impl<'tokens> Parser<'tokens> {
     }
 
     pub(crate) fn bump(&mut self) {
+        // always consume a real token: callers that look ahead with `at_ahead` and then bump
+        // twice (`.try`, `.( )`, `.{ }`, `+=`) would otherwise consume the trivia in between
+        self.skip_trivia();
         self.clear_expected_syntaxes();
         self.events.push(Some(Event::AddToken));
         self.token_idx += 1;
